@@ -102,7 +102,9 @@ def history_save(fx, bm):
             cb = fx.body(callee_name(t) or "")
             if cb is None or not t["args"]:
                 continue
-            if norm(cb.name).startswith("chess::game::Game::") and "History" in t["dest"].get("t", "") or (cb is not None and "chess::game::History" in bm.local_ty(t["dest"]["l"])):
+            # a `&self` helper returning the History value, or a `&mut self` helper that builds and pushes it
+            if norm(cb.name).startswith("chess::game::Game::") and "History" in t["dest"].get("t", "") or (cb is not None and "chess::game::History" in bm.local_ty(t["dest"]["l"])) or \
+                    (norm(cb.name).startswith("chess::game::Game::") and cb is not bm and len(history_aggregates(cb)) == 1):
                 a0 = strip_refs(bm.expr(t["args"][0], expand_named=True, at=bb))
                 ha = history_aggregates(cb)
                 if len(ha) == 1 and isinstance(a0, tuple) and a0[0] == "arg" and a0[1] == 1:
@@ -540,14 +542,36 @@ def rule_forward(fx, rep):
 
     # (a) castling rights loss table
     found = set()
+    from facts import decision_paths as _dp, substitute_args as _sa
+    vsites = []
     for bb, t in bm.calls_to("Game::try_remove_castle_rights"):
-        n += 1
         who = "mover" if is_mover(bm.expr(t["args"][1], expand_named=True, at=bb)) else ("other" if is_other(bm.expr(t["args"][1], expand_named=True, at=bb)) else None)
-        side = deep_strip(bm.expr(t["args"][2], expand_named=True, at=bb))
-        side = str(side[1]).split("::")[-1] if isinstance(side, tuple) and side[0] == "agg" else None
+        side_e = deep_strip(bm.expr(t["args"][2], expand_named=True, at=bb))
+        gconds = [(e, pol) for (e, pol, w) in guard_conditions(bm, bb, expand_named=True)]
+        if isinstance(side_e, tuple) and side_e[0] == "agg":
+            vsites.append((t, who, str(side_e[1]).split("::")[-1], gconds))
+            continue
+        # the side comes out of a helper `fn(player, square) -> Option<CastleRightsSide>`: one virtual site per `Some(side)`
+        # path of the helper, guarded by that path's conditions (with the call's arguments substituted)
+        hc = side_e[1][1] if isinstance(side_e, tuple) and side_e[0] == "field" and isinstance(side_e[1], tuple) and side_e[1][0] == "as" and side_e[1][2] == "Some" else None
+        hc = deep_strip(hc) if hc is not None else None
+        hb = fx.body(hc[1]) if isinstance(hc, tuple) and hc and hc[0] == "call" and isinstance(hc[1], str) else None
+        expanded = False
+        if hb is not None and "CastleRightsSide" in (hb.local_ty(0) or ""):
+            for conds, ret, _rb in _dp(hb, 64):
+                r = deep_strip(ret) if ret is not None else None
+                if isinstance(r, tuple) and r[0] == "agg" and str(r[1]).endswith("Option::Some") and r[2] and isinstance(deep_strip(r[2][0]), tuple) and deep_strip(r[2][0])[0] == "agg":
+                    hconds = [(_sa(e, hc[2]), True) for (e, v) in conds if (isinstance(v, int) and v != 0) or (isinstance(v, tuple) and v[0] == "otherwise" and 0 in v[1])]
+                    own = [(e, pol) for (e, pol) in gconds if not find_calls(e, hb.name)]
+                    vsites.append((t, who, str(deep_strip(r[2][0])[1]).split("::")[-1], own + hconds))
+                    expanded = True
+        if not expanded:
+            vsites.append((t, who, None, gconds))
+    for (t, who, side, gconds) in vsites:
+        n += 1
         trig = None
         extra = []
-        for (e, pol, w) in guard_conditions(bm, bb, expand_named=True):
+        for (e, pol) in gconds:
             txt = show(e)
             known = ("PieceKind::King" in txt or "PieceKind::Rook" in txt) and "kind" in txt and cmp_op(e) is not None
             known = known or (cmp_op(e) is not None and cmp_op(e)[0] == "Eq" and any(k in txt for k in ("squares::king_start", "squares::kingside_rook_start", "squares::queenside_rook_start")) and
@@ -619,6 +643,9 @@ def rule_forward(fx, rep):
                     v = deep_strip(r[2][0])
                     if isinstance(v, tuple) and v[0] == "call" and v[1].endswith("Square::forward"):
                         taken_true = [show(e) for (e, val) in conds if (isinstance(val, int) and val != 0) or (isinstance(val, tuple) and 0 in val[1])]
+                        # `if set.is_empty() { return None }` on the way to Some: the same condition, stated negatively
+                        taken_true += [show(e) for (e, val) in conds if val == 0 and isinstance(deep_strip(e), tuple) and deep_strip(e)[0] == "call" and
+                                       str(deep_strip(e)[1]).endswith("Bitboard::is_empty")]
                         need = need_from(taken_true)
                         verdict = (all(need.values()) if verdict is None else (verdict[0] and all(need.values())), f"in `{cb.name}`: {need}")
     if verdict is None:
